@@ -30,6 +30,11 @@ FILES_PARSER = ['proof_parser/src/json_parser.rs', 'proof_parser/src/builtins.rs
                 'proof_parser/src/annotations/mod.rs', 'proof_parser/src/annotations/extract.rs',
                 'proof_parser/src/annotations/annotation_kind.rs', 'cli/src/transform.rs']
 SET = 'parser' if '--set' in sys.argv and sys.argv[sys.argv.index('--set') + 1] == 'parser' else 'workspace'
+if '--set' in sys.argv and sys.argv[sys.argv.index('--set') + 1] == 'layouts':
+    SET = 'layouts'
+    FILES = ['crates/air/src/layout/%s/mod.rs' % l for l in ('dex', 'small', 'starknet', 'starknet_with_keccak', 'recursive_with_poseidon')]
+    CHECKS = ['C01', 'C03', 'C13', 'C14', 'C16', 'C17', 'C18']
+    OUT = OUT + '_layouts'
 if SET == 'parser':
     FILES = FILES_PARSER
     CHECKS = ['C19', 'C03', 'C13']
@@ -136,6 +141,27 @@ def one(c, worker):
             envx = dict(os.environ, SWV_REPO=w)
             q = subprocess.run([sys.executable, V + '/rules/extract.py', 'parser', 'cli_recursive'], cwd=V, env=envx, capture_output=True, text=True)
             if q.returncode != 0 or 'ExtractError' in q.stderr or 'error' in q.stderr.lower():
+                return c['id'], {'status': 'does-not-compile'}
+            env2 = dict(os.environ, SWV_REPO=w, SWV_EVIDENCE_DIR=tempfile.mkdtemp(prefix='mutev.', dir='/tmp'))
+            fired = {}
+            for ck in CHECKS:
+                q = subprocess.run([sys.executable, V + '/rules/main.py', ck], cwd=V, env=env2, capture_output=True, text=True)
+                if q.returncode != 0:
+                    keys = sorted({re.sub(r'\|\d+$', '', m) for m in re.findall(r'\(key ([^)]*)\)', q.stdout)})
+                    fired[ck] = sorted({k.split('|')[0] for k in keys})[:6] or re.findall(r'ANALYSIS-INCOMPLETE rule=(\S+)', q.stdout)[:2]
+            shutil.rmtree(env2['SWV_EVIDENCE_DIR'], ignore_errors=True)
+            th = subprocess.run([sys.executable, '-c', 'import sys; sys.path.insert(0, sys.argv[1]); import extract; print(extract.tree_hash())',
+                                 V + '/rules'], env=env2, capture_output=True, text=True).stdout.strip()
+            if th and os.path.isdir(V + '/.cache/facts/' + th):
+                shutil.rmtree(V + '/.cache/facts/' + th, ignore_errors=True)
+            return c['id'], {'status': 'live', 'fired': fired}
+        if SET == 'layouts':
+            # the other layouts are behind cargo features the workspace suite does not build: 'live' = the layout type-checks
+            lname = c['file'].split('/')[-2]
+            envl = dict(os.environ, CARGO_TARGET_DIR=tgt, CARGO_NET_OFFLINE='true')
+            q = subprocess.run(['cargo', 'check', '-q', '--offline', '-p', 'swiftness_air', '--no-default-features', '--features',
+                                f'std,{lname},keccak_160_lsb,stone5'], cwd=w, env=envl, capture_output=True, text=True, timeout=1200)
+            if q.returncode != 0:
                 return c['id'], {'status': 'does-not-compile'}
             env2 = dict(os.environ, SWV_REPO=w, SWV_EVIDENCE_DIR=tempfile.mkdtemp(prefix='mutev.', dir='/tmp'))
             fired = {}
